@@ -80,6 +80,32 @@ def _own_nodes(fn):
         stack.extend(ast.iter_child_nodes(x))
 
 
+def _closure_factory(fn):
+    """A helper whose whole body is one nested function and `return <that function>` (a closure factory): -> the nested def.
+    It is inlined by defining the closure at the call site, over the bound arguments."""
+    body = list(fn.body)
+    if body and isinstance(body[0], ast.Expr) and isinstance(body[0].value, ast.Constant) and isinstance(body[0].value.value, str):
+        body = body[1:]
+    if len(body) != 2 or not isinstance(body[0], (ast.FunctionDef, ast.AsyncFunctionDef)) or body[0].decorator_list:
+        return None
+    g, r = body
+    if not (isinstance(r, ast.Return) and isinstance(r.value, ast.Name) and r.value.id == g.name):
+        return None
+    a = g.args
+    inner = {x.arg for x in a.args + a.kwonlyargs + a.posonlyargs} | ({a.vararg.arg} if a.vararg else set()) | ({a.kwarg.arg} if a.kwarg else set())
+    for x in ast.walk(g):
+        if x is g:
+            continue
+        if isinstance(x, (ast.FunctionDef, ast.AsyncFunctionDef, ast.ClassDef, ast.Global, ast.Nonlocal, ast.Lambda)):
+            return None
+        if isinstance(x, ast.Name) and isinstance(x.ctx, (ast.Store, ast.Del)):
+            inner.add(x.id)
+    outer = {x.arg for x in fn.args.args + fn.args.kwonlyargs + fn.args.posonlyargs} | {g.name}
+    if inner & outer:
+        return None  # the closure shadows a name of the factory: left alone
+    return g
+
+
 def _eligible(fn, keep: set[str]) -> bool:
     if fn.name in keep or (fn.name.startswith("__") and fn.name.endswith("__")):
         return False
@@ -89,7 +115,10 @@ def _eligible(fn, keep: set[str]) -> bool:
     for d in fn.decorator_list:
         if not (isinstance(d, ast.Name) and d.id == "staticmethod"):
             return False
+    factory = _closure_factory(fn)
     for x in _own_nodes(fn):
+        if x is factory:
+            continue
         if isinstance(x, (ast.FunctionDef, ast.AsyncFunctionDef, ast.ClassDef, ast.Global, ast.Nonlocal)):
             return False
         if isinstance(x, ast.Name) and x.id in ("super", "locals", "vars"):
@@ -186,6 +215,8 @@ def _pure(e) -> bool:
     attribute chains, and displays / arithmetic of those."""
     if isinstance(e, (ast.Constant, ast.Name)):
         return True
+    if isinstance(e, ast.Call) and isinstance(e.func, ast.Name) and e.func.id == "super" and not e.args and not e.keywords:
+        return True  # binding the super proxy: no effect, no dependence on mutable state
     if isinstance(e, ast.Attribute):
         return _pure(e.value)
     if isinstance(e, (ast.Tuple, ast.List)):
@@ -392,9 +423,14 @@ class _Inliner:
                 mapping[x.id] = prefix + x.id
             elif isinstance(x, ast.ExceptHandler) and x.name and x.name not in mapping:
                 mapping[x.name] = prefix + x.name
+        factory = _closure_factory(h.node)
+        if factory is not None:
+            mapping[factory.name] = prefix + factory.name
         body = copy.deepcopy(h.node.body)
         if body and isinstance(body[0], ast.Expr) and isinstance(body[0].value, ast.Constant) and isinstance(body[0].value.value, str):
             body = body[1:]
+        if factory is not None:
+            body[0].name = prefix + factory.name  # the closure, defined here under a name of its own
         retvar = f"_inl{k}_result"
         block = InlineBlock(test=ast.Constant(value=True), body=[], orelse=[])
         ast.copy_location(block, call)
@@ -409,6 +445,11 @@ class _Inliner:
 
             def visit_Lambda(self, n):
                 return n
+
+            def visit_FunctionDef(self, n):  # the closure of a closure factory keeps its own returns
+                return n
+
+            visit_AsyncFunctionDef = visit_FunctionDef
 
         new_body = []
         for st in body:
